@@ -3,17 +3,17 @@ SPEC = dict(
     title="Loads and boots replace the database everywhere, durably",
     pkg="./store", files=["store/c22_verif_test.go", "store/c04_verif_test.go", "store/c03c04c22_common_verif_test.go"],
     case_preamble="Open Scope N_scope.\n",
-    rule="5 hand-picked histories (every kind of invalid data against a node with data; load through the log on three nodes; boot then joiners that receive the database "
+    rule="8 hand-picked histories (every kind of invalid data against a node with data; load through the log on three nodes; failing snapshot attempts between a load and the next successful snapshot, then rebuilds from the snapshot store; boot then joiners that receive the database "
          "by snapshot install; SQL-text and DELETE-mode loads) + 12 (quick) / 500 (thorough) random histories of <= 9 / <= 20 operations over writes, loads of generated "
-         "WAL-/DELETE-mode files, SQL-text loads, invalid loads (empty, truncated, header only, header + garbage, intact first pages + garbage, not SQLite), boots, snapshots and restarts of any node, "
-         "joins, on an in-process cluster of one voter and up to two read-only nodes; a history is non-trivial when a successful load/boot is followed by a snapshot and "
+         "WAL-/DELETE-mode files, SQL-text loads, invalid loads (empty, truncated, header only, header + garbage, intact first pages + garbage, not SQLite), boots, snapshots of any node (persist ok / not invoked / failed, checkpoint blocked by a stalled reader, with or without log compaction), clean and unclean restarts of any node, "
+         "joins (by log replay or by snapshot install), on an in-process cluster of one voter and up to two read-only nodes; a history is non-trivial when a successful load/boot is followed by a snapshot and "
          "then a restart or a join; distinct by the JSON of the history",
     exhaustive=False,
     trusted=["C04's abstraction of SQLite (cells, override); raft replication delivers the same log to every node and installs the leader's newest snapshot on a node "
              "that needs entries the leader no longer has (hashicorp/raft)",
              "followers are read-only (non-voting) nodes so that the leader never changes; a restarted follower re-joins with its new address",
              "what SQLite's quick_check accepts is what counts as 'a valid database'"],
-    assumptions=["the leader's log is only compacted by a boot (default trailing-log setting, no other compaction within a history)"],
+    assumptions=["the leader's log is only compacted by a boot or by a snapshot the history marks as compacting (one trailing entry)"],
     level_text="C22_load_everywhere holds for every cluster history of any length (induction with a cluster invariant on top of C04's chain invariant); "
                "C22_invalid_load_rejected_without_change holds in every cluster state. The model's cluster step is run on every driver history and compared per step and per node.",
     level_note="Model = C04's node model x N nodes + SQL-text load, rejected load, join by replay or by snapshot install; tie = per-step per-node differential run "
